@@ -1,9 +1,45 @@
-(* C18.  Property theorems only. *)
+(* C18 — sampler labels in a history can always be mapped back to sampler names.  Property theorems only. *)
 From Coq Require Import List ZArith Bool.
-From BlackIt Require Import Model.Calibrator Proofs.CalibratorP.
+From BlackIt Require Import Model.Calibrator Proofs.CalibratorP Proofs.CalibTableP.
 Import ListNotations.
 
-Theorem C18_placeholder_one_batch_designated :
+(* Every state reachable from a calibrator constructed with a non-empty line-up, by ANY sequence of operations, has a
+   table that is non-empty, injective (one id per class, one class per id) and covers the classes of the scheduler's
+   current samplers — live and in the checkpoint. *)
+Theorem C18_table_invariant :
+  forall Param Series LossV model lossf loss_leb rounds0 propose draws agent_actions plan cfg0 samplers scheduler s0 ops,
+    construct Param Series LossV cfg0 samplers scheduler = inl s0 ->
+    sched_samplers _ (sch _ _ _ (live _ _ _ s0)) <> [] ->
+    TInvS Param Series LossV (run Param Series LossV model lossf loss_leb rounds0 propose draws agent_actions plan ops s0).
+Proof. intros. apply run_TInv. eapply construct_TInv; eauto. Qed.
+Print Assumptions C18_table_invariant.
+
+(* An id, once given to a class, is never reassigned by calibrate / create_checkpoint / set_samplers / set_scheduler. *)
+Theorem C18_table_monotone :
+  forall Param Series LossV model lossf loss_leb rounds0 propose draws agent_actions plan s o s' e r c i,
+    TInvS Param Series LossV s ->
+    step Param Series LossV model lossf loss_leb rounds0 propose draws agent_actions plan s o = (s', e, r) -> o <> ORestore ->
+    tlookup c (tbl _ _ _ (live _ _ _ s)) = Some i -> tlookup c (tbl _ _ _ (live _ _ _ s')) = Some i.
+Proof. exact table_monotone. Qed.
+Print Assumptions C18_table_monotone.
+
+(* The id-to-name table is recovered from the checkpoint: a restore returns exactly the table (and the labels) saved. *)
+Theorem C18_table_recoverable :
+  forall Param Series LossV (s s' : cstate Param Series LossV) e d,
+    restore Param Series LossV s = (s', e) -> disk _ _ _ s = Some d ->
+    tbl _ _ _ (live _ _ _ s') = tbl _ _ _ d /\ methods _ _ _ (live _ _ _ s') = methods _ _ _ d.
+Proof. exact restore_table. Qed.
+Print Assumptions C18_table_recoverable.
+
+(* One id identifies one class. *)
+Theorem C18_id_identifies_class :
+  forall t c c' i, NoDup (map snd t) -> tlookup c t = Some i -> tlookup c' t = Some i -> c = c'.
+Proof. exact table_id_identifies_class. Qed.
+Print Assumptions C18_id_identifies_class.
+
+(* The label stored with the rows of a batch is the table id of the class of the sampler designated for that batch
+   (appended_batch: methods extended by `repeat mid batch_size` with tlookup (class m) table = Some mid). *)
+Theorem C18_labels_identify_class :
   forall Param Series LossV model lossf loss_leb rounds0 propose draws agent_actions plan,
   (forall s ps ls, length (propose s ps ls) = s_bsize s) ->
   forall s s' o,
@@ -17,4 +53,17 @@ Theorem C18_placeholder_one_batch_designated :
         (o = Done \/ o = Converged \/ o = Raised ExValue \/ o = Raised ExOther) /\
         (disk _ _ _ s' = disk _ _ _ s \/ disk _ _ _ s' = Some (live _ _ _ s'))).
 Proof. exact one_batch_cases. Qed.
-Print Assumptions C18_placeholder_one_batch_designated.
+Print Assumptions C18_labels_identify_class.
+
+(* The class of the designated sampler is always in the table: the KeyError of the label lookup cannot happen. *)
+Theorem C18_designated_class_in_table :
+  forall Param Series LossV agent_actions (s : cstate Param Series LossV) i sc1 m, TInvS Param Series LossV s ->
+     next_sampler _ agent_actions (sch _ _ _ (live _ _ _ s)) = Some (i, sc1) -> nth_error (sched_samplers _ sc1) i = Some m ->
+     tlookup (s_class m) (tbl _ _ _ (live _ _ _ s)) <> None.
+Proof. exact designated_class_in_table. Qed.
+Print Assumptions C18_designated_class_in_table.
+
+(* Non-vacuity: [A;B] then set_samplers [B;C] keeps A:0, B:1 and gives C the fresh id 2. *)
+Example C18_example :
+  tupdate (tconstruct [mkS 0 0 1 0 None; mkS 1 1 1 0 None]) [mkS 1 2 1 0 None; mkS 2 3 1 0 None] = Some [(0, 0); (1, 1); (2, 2)].
+Proof. reflexivity. Qed.
